@@ -138,6 +138,7 @@ func fsmPairedExplore(c *Ctx, n, t int, maxStates int) (states, pairs int) {
 			)
 		}
 	}
+	alphabet = append(alphabet, typed{"partialerr(0,hostile-text)", EvPartialErr, requests.SignatureProposalConfirmationErrorRequest{ParticipantId: 0, Error: requests.NewFSMError(fmt.Errorf("bad \x01\x07\x7f\v \"q\" end")), CreatedAt: t0.Add(4 * 60e9)}})
 	for p := 0; p <= n; p++ {
 		alphabet = append(alphabet, typed{fmt.Sprintf("partialerr(%d)", p), EvPartialErr, requests.SignatureProposalConfirmationErrorRequest{ParticipantId: p, Error: requests.NewFSMError(fmt.Errorf("boom")), CreatedAt: t0.Add(4 * 60e9)}})
 	}
@@ -187,7 +188,7 @@ func fsmPairedExplore(c *Ctx, n, t int, maxStates int) (states, pairs int) {
 					if pre.OK {
 						outA := safeDo(instA, e.event, e.req)
 						pairs++
-						if outA.OK != outB.OK || outA.State != outB.State || outA.Data != outB.Data || outA.Dump != outB.Dump {
+						if outA.OK != outB.OK || outA.State != outB.State || outA.Data != outB.Data || canonDump(outA.Dump) != canonDump(outB.Dump) {
 							what := fmt.Sprintf("in %s event %s: live(ok=%v,state=%s) vs restored(ok=%v,state=%s)", s.name, e.label, outA.OK, outA.State, outB.OK, outB.State)
 							if outA.OK == outB.OK && outA.State == outB.State && outA.Data == outB.Data {
 								what += " dumps differ: " + oracle.FirstDiff(outA.Dump, outB.Dump)
@@ -198,6 +199,10 @@ func fsmPairedExplore(c *Ctx, n, t int, maxStates int) (states, pairs int) {
 						}
 					}
 				}
+			}
+			if outB.OK && !json.Valid([]byte(outB.Dump)) {
+				c.Violate("C19/accepted-event-leaves-unsavable-state", fmt.Sprintf("in %s event %s is accepted (next state %s) but the resulting round cannot be dumped (dump is %d bytes, not JSON)", s.name, e.label, outB.State, len(outB.Dump)), map[string]interface{}{"n": n, "t": t, "path": path(s), "event": e.label})
+				continue
 			}
 			if !outB.OK || outB.Dump == "" {
 				continue
@@ -264,3 +269,13 @@ func checkC19(c *Ctx) {
 
 // c19Signing is filled in by the C06 exploration (restore + list over signing states).
 var c19Signing = func(c *Ctx) {}
+
+// canonDump re-encodes a dump so that equal JSON values compare equal whatever escaping was used.
+func canonDump(d string) string {
+	var x interface{}
+	if json.Unmarshal([]byte(d), &x) != nil {
+		return d
+	}
+	bz, _ := json.Marshal(x)
+	return string(bz)
+}
